@@ -949,6 +949,13 @@ func (tr *trans) footprintOf(env *Env, m Expr, fp *footprint) {
 						return
 					}
 				}
+			case "allelems":
+				// allelems(T): every backing array of []T
+				te := TypeExpr{Kind: "name", Name: exprToQualified(x.Args[0])}
+				if t, _, _ := env.resolveType(te); t != nil {
+					fp.whole[tr.arrHeap(t)] = true
+					return
+				}
 			case "all":
 				// all(T.f) : the whole field heap ; all(T): cell heap
 				if s, ok := x.Args[0].(*ESel); ok {
